@@ -1,5 +1,8 @@
 import MJ.Model.Bal
 import MJ.Model.BalGen
+import MJ.Model.Ops
+import MJ.Model.OpsBal
+import MJ.Model.BalPatch
 /-! Line driver for C05: `D <TAB> case <TAB> stream <TAB> class <TAB> tok tok …` →
 `case <TAB> stream <TAB> ok <TAB> n=<instructions> loops=<k> …` or
 `case <TAB> stream <TAB> reject <TAB> <diagnosis>`.  The verdict is the VERIFIED `checkCert` run on
@@ -88,12 +91,21 @@ def seqOf : List Stmt → Stmt
   | [s] => s
   | s :: rest => .seq s (seqOf rest)
 
+def capturedPending : Stmt :=
+  .simple [.other, .other, .callFunction, .other, .other, .other, .other, .other]
+
 def leafStmts (leaf : String) : Option (List Stmt) :=
   if leaf = "T" ∨ leaf = "empty" then some []
   else if leaf = "brk" then some [.breakS]
   else if leaf = "cont" then some [.continueS]
   else if leaf = "rec" then some [.simple [.other, .fastRecurse]]
   else if leaf = "recf" then some [.simple [.other, .callFunction, .other, .other]]
+  -- `{{ ('p' ~ loop(x) ~ 'q')|safe }}`
+  else if leaf = "recp" then some [capturedPending]
+  -- `{{ pj('p', ['l', loop(x)]) }}`
+  else if leaf = "recl" then some [.simple [.other, .other, .other, .callFunction, .other, .callFunction, .other]]
+  -- `{% if loop.depth0 % 2 == … %}` captured form `{% else %}{{ loop(x) }}{% endif %}`
+  else if leaf = "recm" ∨ leaf = "recn" then some [.ifElse 6 capturedPending (.simple [.other, .fastRecurse])]
   else if leaf = "fail" then some [.simple [.callFunction, .other]]
   else if leaf = "failk" then some [.simple [.other, .other, .other, .callFunction, .other]]
   else if leaf = "finc" then some [.simple [.other, .other]]
@@ -132,6 +144,7 @@ def buildShape (leaf : String) : List String → Nat → Option (List Stmt × Li
       else if kind = "forf" then
         mk [os 2, .forS false false 0 2 (.ifElse 3 (os 3) (os 1)), os 1, .forS true false 0 1 body]
       else if kind = "forr" then mk [.forS true true 1 1 body]
+      else if kind = "forre" then mk [.forElse true true 1 1 body piece]
       else if kind = "with" then mk [.withS 2 body]
       else if kind = "set" then mk [.capture body 1, os 2]
       else if kind = "filt" then mk [.capture body 2]
@@ -197,14 +210,103 @@ def genVerdict (case stream : String) (real : Code) : String :=
       -- the certificate the model generator emits, checked by the verified checker (what
       -- `compile_has_cert` proves for every statement)
       let certOk := checkCert (codeOf P) (certOf P AbsState.init)
+      -- the generator as the Rust is written (instructions appended, jump targets written into them
+      -- afterwards through `pending_block`); `genTemplate_eq` proves it equal to `compileTemplate`
+      let patched := BalPatch.genTemplate st
       if !(BalGen.ok false st) then "gen=not-in-fragment"
+      else if patched != model then "gen=BACKPATCH-DIFFERS"
       else if skeleton model != skeleton real.toList then "gen=MISMATCH"
       else if !certOk then "gen=CERT-REJECTED"
       else if model == real.toList then "gen=exact"
       else "gen=match"
 
+/-! ## operand stack: the machine of `MJ/Model/Ops.lean` run along the heights observed on the engine -/
+
+def parseOpTok (s : String) : Option Ops.Instr :=
+  if s = "dy" then some .dyn
+  else if s = "cd" then some .callDyn
+  else if s = "pw" then some .pushWith
+  else if s = "pf" then some .popFrame
+  else if s = "plf" then some .popLoopFrame
+  else if s = "dn" then some .pushDidNotIterate
+  else if s = "bc" then some .beginCapture
+  else if s = "ec" then some .endCapture
+  else if s = "pa" then some .pushAutoEscape
+  else if s = "qa" then some .popAutoEscape
+  else if s = "fr" then some .fastRecurse
+  else if s = "ret" then some .ret
+  else if s = "xl" then some .exportLocals
+  else if s.startsWith "e" then
+    match ((s.drop 1).toString.splitOn "_").map String.toNat? with
+    | [some a, some b] => some (.eff a b)
+    | _ => none
+  else if s.startsWith "ul" then (natAfter s 2).map .unpack
+  else if s.startsWith "c" then (natAfter s 1).map .call
+  else if s.startsWith "pl" then (natAfter s 2).map (fun f => .pushLoop (f % 2 == 1) ((f / 2) % 2 == 1))
+  else if s.startsWith "it" then (natAfter s 2).map .iterate
+  else if s.startsWith "bm" then (natAfter s 2).map .buildMacro
+  else if s.startsWith "jfp" then (natAfter s 3).map .jumpIfFalseOrPop
+  else if s.startsWith "jtp" then (natAfter s 3).map .jumpIfTrueOrPop
+  else if s.startsWith "jf" then (natAfter s 2).map .jumpIfFalse
+  else if s.startsWith "j" then (natAfter s 1).map .jump
+  else none
+
+def parseOpCode (s : String) : Option Ops.Code :=
+  let toks := (s.splitOn " ").filter (· ≠ "")
+  (toks.mapM parseOpTok).map List.toArray
+
+def parseTrace (s : String) : Option (List (Nat × Nat)) :=
+  ((s.splitOn " ").filter (· ≠ "")).mapM (fun ev =>
+    match (ev.splitOn ":").map String.toNat? with
+    | [some pc, some h] => some (pc, h)
+    | _ => none)
+
+def showOpInstr (code : Ops.Code) (pc : Nat) : String :=
+  match code[pc]? with
+  | none => "end"
+  | some i => (reprStr i).replace "MJ.Ops.Instr." ""
+
+/-- the site of a deviation: what kind of instruction the engine and the machine disagree on -/
+def deviationSite (code : Ops.Code) (s : Ops.State) : String :=
+  match code[s.pc]? with
+  | some .popLoopFrame =>
+    match s.frames with
+    | .loopF l :: _ => if l.ret.isSome then "recursion-return" else "loop-end"
+    | _ => "loop-end"
+  | some (.pushLoop _ _) => "push-loop"
+  | some (.call _) => "call"
+  | some .callDyn => "call"
+  | some .fastRecurse => "recursion-call"
+  | some (.eff _ _) => "effect"
+  | some .dyn => "effect"
+  | some (.unpack _) => "effect"
+  | _ => "control"
+
+def opsVerdict (code : Ops.Code) (traces : List (List (Nat × Nat))) : String :=
+  let rec go (ts : List (List (Nat × Nat))) (n steps recs : Nat) : String :=
+    match ts with
+    | [] => s!"ops-ok\ttraces={n} steps={steps} recursions={recs}"
+    | t :: rest =>
+      match Ops.replay Ops.condReal code t with
+      | .ok st r => go rest (n + 1) (steps + st) (recs + r)
+      | .deviates i s pc h =>
+        s!"ops-deviates\t{deviationSite code s}\ttrace {n} event {i}: at pc={s.pc} {showOpInstr code s.pc} height {s.h} bases {s.bases} the engine goes to pc={pc} height {h}; the machine allows {(Ops.step Ops.condReal code s (Ops.guessK code s h)).map (fun t => (t.pc, t.h))}"
+      | .notRestored i what g f pc =>
+        s!"ops-not-restored\t{what}\ttrace {n} event {i}: the {what} closed at pc={pc} {showOpInstr code pc} was opened at operand height {g} and is closed at {f}"
+      | .below i b f pc =>
+        s!"ops-below\trecursion-return\ttrace {n} event {i}: the recursion level ending at pc={pc} recorded base {b} but the operand stack is down to {f}"
+  go traces 0 0 0
+
 def handle (line : String) : String :=
   match line.splitOn "\t" with
+  | ["O", case, stream, _cls, toks, traces] =>
+    match parseOpCode toks, ((traces.splitOn "|").filter (· ≠ "")).mapM parseTrace with
+    | some code, some ts =>
+      -- the hypothesis of `certified_recursion_bases_paired`: the projection of this very stream
+      -- has a certificate the verified checker accepts
+      if Bal.validate (OpsBal.projCode code) then s!"{case}\t{stream}\t{opsVerdict code ts}"
+      else s!"{case}\t{stream}\tops-uncertified\tprojection\tthe projection of the stream to the balance alphabet has no accepted certificate"
+    | _, _ => s!"{case}\t{stream}\tops-bad-line\tunknown token"
   | ["D", case, stream, _cls, toks] =>
     match parseCode toks with
     | none => s!"{case}\t{stream}\tbad-stream\tunknown token"
